@@ -240,9 +240,17 @@ func (me *multiEndpoint) switchFromTo(f, t *endpoint) {
 	timeAfterFunc(me.switchingDelay, func() {
 		me.Lock()
 		defer me.Unlock()
-		if e, ok := me.endpoints[me.future]; ok && e.status == available {
-			me.current = e.id
+		e, ok := me.endpoints[me.future]
+		if !ok || e.status != available {
+			return
 		}
+		// The endpoints list or priorities may have changed since this switch was
+		// scheduled. Never move away from a current endpoint that is still usable
+		// (available or recovering) and has higher priority than the target.
+		if c, exists := me.endpoints[me.current]; exists && c.status != unavailable && c.priority < e.priority {
+			return
+		}
+		me.current = e.id
 	})
 }
 
